@@ -38,9 +38,18 @@ ASSUMPTIONS = [
 ]
 
 # (with explicit factors as well: 'combo-8' is held as the float 8.0 inside)
-OBJECTIVES = ["flops", "size", "write", "combo", "limit", "combo-8", "limit-3"]
+# ('obj:...' = an Objective instance with a non-integer factor, which has no string form)
+OBJECTIVES = ["flops", "size", "write", "combo", "limit", "combo-8", "limit-3", "obj:combo-0.5", "obj:limit-2.5"]
 REAL_METHODS = ["greedy", "random-greedy", "labels", "kahypar", "random"]
 FLAKY = "verif-flaky"
+
+
+def resolve_objective(ctg, name):
+    if name == "obj:combo-0.5":
+        return ctg.scoring.ComboObjective(factor=0.5)
+    if name == "obj:limit-2.5":
+        return ctg.scoring.LimitObjective(factor=2.5)
+    return name
 
 _state = {"fail": frozenset(), "calls": []}
 
@@ -267,7 +276,7 @@ def run_case(spec, sub=None):
         with warnings.catch_warnings():
             warnings.simplefilter("ignore")
             opt = ctg.HyperOptimizer(
-                methods=list(spec["methods"]), minimize=spec["minimize"],
+                methods=list(spec["methods"]), minimize=resolve_objective(ctg, spec["minimize"]),
                 max_repeats=spec["max_repeats"], parallel=parallel,
                 optlib=spec.get("optlib", "random"), on_trial_error="ignore",
                 max_time=None if spec.get("equil") is None else f"equil:{spec['equil']}",
